@@ -97,3 +97,39 @@ def modexp_byzantium(base_len, exp_len, mod_len, highp_bits):
 def modexp_berlin(base_len, exp_len, mod_len, highp_bits):
     w = (max(base_len, mod_len) + 7) // 8
     return max(200, min(w * w * iteration_count(exp_len, highp_bits) // 3, 2 ** 64 - 1))
+
+
+# RFC 7693 (BLAKE2b): initialisation vector, message schedule, and the mixing function G
+BLAKE2B_IV = [0x6a09e667f3bcc908, 0xbb67ae8584caa73b, 0x3c6ef372fe94f82b, 0xa54ff53a5f1d36f1,
+              0x510e527fade682d1, 0x9b05688c2b3e6c1f, 0x1f83d9abfb41bd6b, 0x5be0cd19137e2179]
+BLAKE2_SIGMA = [
+    [0, 1, 2, 3, 4, 5, 6, 7, 8, 9, 10, 11, 12, 13, 14, 15],
+    [14, 10, 4, 8, 9, 15, 13, 6, 1, 12, 0, 2, 11, 7, 5, 3],
+    [11, 8, 12, 0, 5, 2, 15, 13, 10, 14, 3, 6, 7, 1, 9, 4],
+    [7, 9, 3, 1, 13, 12, 11, 14, 2, 6, 5, 10, 4, 0, 15, 8],
+    [9, 0, 5, 7, 2, 4, 10, 15, 14, 1, 11, 12, 6, 8, 3, 13],
+    [2, 12, 6, 10, 0, 11, 8, 3, 4, 13, 7, 5, 15, 14, 1, 9],
+    [12, 5, 1, 15, 14, 13, 4, 10, 0, 7, 6, 3, 9, 2, 8, 11],
+    [13, 11, 7, 14, 12, 1, 3, 9, 5, 0, 15, 4, 8, 6, 2, 10],
+    [6, 15, 14, 9, 11, 3, 0, 8, 12, 2, 13, 7, 1, 4, 10, 5],
+    [10, 2, 8, 4, 7, 6, 1, 5, 15, 11, 9, 14, 3, 12, 13, 0],
+]
+BLAKE2_G_INDICES = [(0, 4, 8, 12), (1, 5, 9, 13), (2, 6, 10, 14), (3, 7, 11, 15),
+                    (0, 5, 10, 15), (1, 6, 11, 12), (2, 7, 8, 13), (3, 4, 9, 14)]
+M64 = (1 << 64) - 1
+
+
+def _rotr(x, n):
+    return ((x >> n) | (x << (64 - n))) & M64
+
+
+def blake2_g(va, vb, vc, vd, x, y):
+    va = (va + vb + x) & M64
+    vd = _rotr(vd ^ va, 32)
+    vc = (vc + vd) & M64
+    vb = _rotr(vb ^ vc, 24)
+    va = (va + vb + y) & M64
+    vd = _rotr(vd ^ va, 16)
+    vc = (vc + vd) & M64
+    vb = _rotr(vb ^ vc, 63)
+    return va, vb, vc, vd
